@@ -103,7 +103,8 @@ def make_patch(rng, a, b, c, dialect, top):
             text = subprocess.run(cmd, cwd=top, env=env, stdout=subprocess.PIPE, stderr=subprocess.PIPE).stdout
     else:
         la, lb = b"a/" + name, b"b/" + name
-        if dialect == "orig":
+        if dialect == "orig" and b is not None:
+            # (when B is absent the old name is the only name of the file: f.orig would name a file that is not there)
             la = b"a/" + name + b".orig"
         if dialect == "p0":
             la, lb, strip = name, name, 0
